@@ -139,7 +139,7 @@ def _forward(P, leaf_vals, root):
         k = 0
         for nd in P.nodes:
             if nd['kind'] == 'leaf':
-                im.ts.append(sg.Tensor(np.array(leaf_vals[k], dtype=np.float64).reshape(nd['shape'])))
+                im.ts.append(sg.Tensor(np.array(leaf_vals[k], dtype=np.float64).reshape(nd['shape']).astype(tprog.DT[nd.get('dt', 'f64')])))
                 k += 1
             else:
                 out = im.call_op(nd['name'], nd['ins'], [str(a) for a in nd['args']])
